@@ -5,6 +5,7 @@ import (
 	"go/ast"
 	"go/token"
 	"go/types"
+	"strings"
 )
 
 type jump struct {
@@ -645,6 +646,7 @@ type loopSpec struct {
 	assumes []*Clause
 	lets    []*Clause
 	invs    []*Clause
+	cut     bool
 	dec     *Clause
 	assigns []*Clause
 }
@@ -669,6 +671,8 @@ func (p *Proc) loopSpecFor(n ast.Node) loopSpec {
 				ls.lets = append(ls.lets, cl)
 			case "loop.assume":
 				ls.assumes = append(ls.assumes, cl)
+			case "loop.cut":
+				ls.cut = true
 			}
 		}
 	}
@@ -732,6 +736,19 @@ func (p *Proc) loopHead(st *State, n ast.Node, body *ast.BlockStmt, extraMod []*
 			st.assume(fg.goal)
 		}
 		p.loopFrame[fmt.Sprintf("%sloop%d", p.cur().prefix, ls.ord)] = frameKeys
+	}
+	// `loop N cut`: quantified and nonlinear facts gathered before the loop are forgotten
+	// (dropping hypotheses is sound); what the loop and the code after it need of them must be
+	// stated as invariants. Linear ground facts and the entry facts are kept.
+	if ls.cut {
+		n0 := len(p.entry.pc)
+		kept := append([]*Term(nil), st.pc[:min(n0, len(st.pc))]...)
+		for _, t := range st.pc[min(n0, len(st.pc)):] {
+			if !strings.Contains(t.S, "(forall ") && !strings.Contains(t.S, "(exists ") && !strings.Contains(t.S, "(* ") {
+				kept = append(kept, t)
+			}
+		}
+		st.pc = kept
 	}
 	// 3. assume invariants
 	for _, cl := range ls.invs {
